@@ -68,9 +68,11 @@ class RoundTrip(Harness):
         return Outcome("roundtrip", ok, {"text": text, "back": rt.snapshot(back)})
 
 
-def plan(tier):
+def plan(tier, big=None):
     """(shape, leaf, n, cfg) tuples"""
     quick = tier == "quick"
+    if big is None:
+        big = not quick
     out = []
     smax = 2 if quick else 3
     for shape in rt.SHAPES:
@@ -94,6 +96,18 @@ def plan(tier):
     for sh in ("dd:dd", "dd:dd-dd", "dd:dd:dd+dd:dd", "dddd-dd-dd", "dddd-dddTdd:dd+d", "d#d#", "dd#-d#", "d.dEd", "-d", "d_d"):
         for shape in ("single", "seq"):
             out.append((shape, "shape:" + sh, 0, "default"))
+    # floats whose repr uses an exponent, both signs, inside containers too
+    for sh in ("sd.dEs1d", "sd.dE-d", "sdE2d") + (() if quick else ("sd.ddEs0d", "sd.dEs2d")):
+        for shape in ("single", "seq", "quant"):
+            out.append((shape, "fexp:" + sh, 0, "default"))
+    # more blocks / deeper nesting than any small fixed limit (expensive: the quick tier runs them for the default
+    # loader only, C02)
+    if big:
+        out.append(("manyblocks", "str", 1, "noaggend"))
+        out.append(("deepblocks", "str", 1, "default"))
+        if not quick:
+            out.append(("manyblocks", "str", 1, "default"))
+            out.append(("deepblocks", "str", 1, "noaggend"))
     out.append(("wrapunits", "int", 2, "default"))
     out.append(("wrapunits", "int", 2, "narrow"))
     for cfg in list(rt.CONFIGS) + list(rt.PVL_ONLY) + list(rt.PDS_ONLY):
@@ -109,7 +123,7 @@ def plan(tier):
 def obligations(tier, cls=RoundTrip):
     obs = []
     for dia in ("PVL", "ODL", "PDS3", "ISIS"):
-        for shape, leaf, n, cfg in plan(tier):
+        for shape, leaf, n, cfg in plan(tier, big=True if cls.reader == "omni" else None):
             if rt.config(dia, cfg) is None:
                 continue
             bits = 3 if (leaf == "str" and n >= 3) else 0
